@@ -665,6 +665,9 @@ def fwd_position(m: Model, d: Data, factorize: bool = True):
     else:
       collision_driver.collision(m, d)
 
+  # connect and weld rows read body velocities (cvel, cdof_dot) for the Jdot * qvel term of aref
+  if m.eq_connect_adr.size or m.eq_wld_adr.size:
+    smooth.com_vel(m, d)
   constraint.make_constraint(m, d)
 
   if sleep_enabled:
